@@ -1,7 +1,7 @@
 (* C10 — Syncing reaches quiescence: no echo uploads, no write amplification. Property theorems only. *)
 From LS Require Import Base.Bytes Base.Res Header.Model Merge.Model Merge.Version Shadow.Model
   Strategy.Model Strategy.Order Strategy.Proofs
-  Instance.Model Instance.Proofs Instance.ShadowNoop Instance.Ids Instance.IdsProofs Instance.IdsQuiesce.
+  Instance.Model Instance.Proofs Instance.ShadowNoop Instance.SyncLoop Instance.Ids Instance.IdsProofs Instance.IdsQuiesce Instance.StepShapes Instance.LoopQuiet.
 Open Scope N_scope.
 
 (* merging a snapshot that contains nothing newer than the local data commits NO LMDB transaction
@@ -104,6 +104,24 @@ Proof.
     apply q_nil.
   - reflexivity.
 Qed.
+
+(* the same one level down, on the EXECUTABLE loop machine that is replayed against the real syncLoop, with
+   the real LoadOnce transaction: an idle instance (lastSynced = LastTxnID) whose schedule contains no further
+   application commit uploads nothing in any later pass — whatever snapshots are injected, in both modes,
+   whether or not the loads change the LMDB — and is idle again after every pass it survives *)
+Theorem C10_idle_pass_executable : forall fuel c has_data s s' alive,
+  idle s -> loop_iter fuel c has_data s = (s', alive) ->
+  l_stores s' = l_stores s /\ (alive = true -> idle s').
+Proof. exact loop_iter_idle. Qed.
+Theorem C10_idle_forever_executable : forall c has_data fuel s,
+  idle s -> l_stores (outer_loop fuel c has_data s) = l_stores s.
+Proof. exact outer_loop_idle. Qed.
+Print Assumptions C10_idle_forever_executable.
+(* non-vacuity: a freshly started instance on an empty LMDB with two snapshots still to be injected is idle *)
+Example C10_idle_example :
+  idle (init_state (mkEnv [] 0)
+          [[]; [AInject (mkUpd [98] 7 (mkSnap 3 1 [mkSDbi [97] 0 [] [mkKV [107] [118] 5 0]]))]; []] 1000).
+Proof. split; [reflexivity|]. repeat constructor. Qed.
 
 Example C10_example :
   let e := mkEnv [([97], mkDbi 0 [([107], be64 9 ++ be64 3 ++ [0;0;0;0;0;0;0;0] ++ [118])])] 3 in
